@@ -128,6 +128,10 @@ func qrAlgorithmSymmetric(inSitu *InSitu, epsilon float64) (Matrix, Matrix, erro
   Z    := inSitu.U
   n, _ := T.Dims()
 
+  // accumulate the transformations in the matrix U of this call (which
+  // may be supplied by the caller), as the general algorithm does
+  inSitu.Householder.U = Z
+
   if T_, Z_, err := householderTridiagonalization.Run(T, &inSitu.Householder, householderTridiagonalization.ComputeU{Z != nil}); err != nil {
     return nil, nil, err
   } else {
